@@ -144,7 +144,7 @@ def cohort_table(case):
     if cls in ("Unilateral", "HPVUnilateral"):
         df = impl.table_from_patients(pats, mods, lnls)
         if cls == "HPVUnilateral":
-            df[("patient", "#", "hpv_status")] = pd.Series([p.get("hpv") for p in pats], dtype=object)
+            df[("patient", "#", "hpv_status")] = pd.Series([p.get("hpv") for p in pats], dtype=object, index=df.index)
         return df
     return impl.table_from_patients(pats, mods, lnls, ("ipsi", "contra"), cls == "Midline")
 
